@@ -26,6 +26,46 @@ func configMCcfg(maxRecs int, fix, export bool) string {
 		maxRecs, tlaBool(fix), tlaBool(export), inv)
 }
 
+// inflateListing appends pad bytes to every occurrence of one value token (in the listing and in the expected
+// answers alike); ok is false when the listing has no such token.
+func inflateListing(x listingExport, pad int) (listingExport, bool) {
+	target := ""
+	for _, t := range x.Bytes {
+		if t == "refs/heads" || t == "a" || t == "v" {
+			target = t
+			break
+		}
+	}
+	if target == "" {
+		return x, false
+	}
+	long := target + strings.Repeat("x", pad)
+	sub := func(ts []string) []string {
+		out := make([]string, len(ts))
+		for i, t := range ts {
+			if t == target {
+				t = long
+			}
+			out[i] = t
+		}
+		return out
+	}
+	y := listingExport{Bytes: sub(x.Bytes), Answers: map[string][]struct {
+		Key   []string `json:"key"`
+		Value []string `json:"value"`
+	}{}}
+	for p, es := range x.Answers {
+		for _, e := range es {
+			e.Value = sub(e.Value)
+			y.Answers[p] = append(y.Answers[p], e)
+		}
+		if es == nil {
+			y.Answers[p] = nil
+		}
+	}
+	return y, true
+}
+
 const fakeGitConfigScript = `#!/bin/sh
 for a in "$@"; do
   case "$a" in
@@ -131,6 +171,16 @@ func checkC15(c *Ctx) {
 		Infra("ConfigMC export: %v\n%s", err, res.Tail)
 	}
 	c.AddTLC(fmt.Sprintf("ConfigMC MaxRecs=%d export", maxRecs), res.Generated, res.Distinct, res.Wall, fmt.Sprintf("%d listings exported", len(exps)))
+	// the same listings with one value made as long as a buffer or longer (4 KiB, 64 KiB, 200 KB): the reader's answer
+	// is the spec's answer with that value inflated, whatever the length
+	nx := len(exps)
+	for i := 0; i < nx; i += 1 + nx/40 {
+		for _, pad := range []int{4090, 65530, 200000} {
+			if y, ok := inflateListing(exps[i], pad); ok {
+				exps = append(exps, y)
+			}
+		}
+	}
 	var listings [][]byte
 	for _, x := range exps {
 		listings = append(listings, tokBytes(x.Bytes))
